@@ -794,3 +794,67 @@ pub async fn concurrent_first_registrations(addr: SocketAddr, certs: &Certs, rou
     }
     Ok((evals, findings))
 }
+
+/// C01 with peers the client library never plays: a publisher that writes its first messages in the same flight as its
+/// registration, and a subscriber that finishes its own (unused) sending direction right after it was accepted. The
+/// server accepted both; every message of the accepted publisher reaches every healthy subscriber, in order.
+pub async fn c01_pipelined_and_half_closed(addr: SocketAddr, certs: &Certs, id: u64) -> std::result::Result<(u64, Findings), String> {
+    let w = Duration::from_secs(10);
+    let topic = format!("/l3c01p{}/odd-peers", id);
+    let c1 = raw_connect(addr, certs).await.map_err(|e| e.to_string())?;
+    let c2 = raw_connect(addr, certs).await.map_err(|e| e.to_string())?;
+    let mut plain = WireStream::register(&c1.conn, T_REG_SUB, &topic, w).await?;
+    let mut half = WireStream::register(&c1.conn, T_REG_SUB, &topic, w).await?;
+    let _ = half.finish().await; // half-close: this subscriber will never send anything
+    let mut helper = WireStream::register(&c2.conn, T_REG_PUB, &topic, w).await?;
+    for s in [&mut plain, &mut half] {
+        let mut ok = false;
+        for _ in 0..60 {
+            helper.write(&enc_message(None, b"sentinel")).await?;
+            match s.next(Duration::from_millis(100)).await {
+                Next::Frame(WFrame::Message { body, .. }) if body.starts_with(b"sentinel") => {
+                    ok = true;
+                    break;
+                }
+                Next::Frame(_) | Next::Timeout => {}
+                other => return Ok((0, vec![("half-closed-subscriber/abandoned".into(), format!("a subscriber that was answered Ok saw its stream end before anything was delivered: {:?} (one of the two subscribers had finished its own sending direction right after the Ok)", other))])),
+            }
+        }
+        if !ok {
+            return Ok((0, vec![("half-closed-subscriber/abandoned".into(), "a subscriber that was answered Ok (one of the two had finished its own sending direction right after the Ok) never received the sentinel a publisher kept sending for 6 s".to_string())]));
+        }
+    }
+    // the pipelining publisher
+    let mut p = WireStream::open(&c2.conn).await.map_err(|e| e.to_string())?;
+    let mut bytes = enc_register(T_REG_PUB, &topic);
+    let mut sent = vec![];
+    for i in 0..3 {
+        let b = body_for(i, 40 + i * 1000, false);
+        sent.push((i, b.len(), fnv(&b)));
+        bytes.extend_from_slice(&enc_message(None, &b));
+    }
+    p.write(&bytes).await?;
+    match p.next(w).await {
+        Next::Frame(WFrame::Ok) => {}
+        Next::Frame(WFrame::Error { .. }) => return Ok((0, vec![])), // refused outright: nothing was accepted
+        other => return Ok((0, vec![("pipelined-publisher/no-verdict".into(), format!("{:?}", other))])),
+    }
+    for i in 3..6 {
+        let b = body_for(i, 64, i == 5);
+        sent.push((i, b.len(), fnv(&b)));
+        p.write(&enc_message(None, &b)).await?;
+    }
+    let mut findings = vec![];
+    let mut deliveries = 0u64;
+    for (name, s) in [("plain subscriber", plain), ("subscriber that had finished its sending direction", half)] {
+        let (got, how) = drain_sub(s, Duration::from_secs(5)).await;
+        deliveries += got.len() as u64;
+        if got != sent {
+            findings.push((
+                "undelivered/pipelined-publisher".to_string(),
+                format!("the publisher was answered Ok; it had written 3 messages in the same flight as its registration and 3 afterwards; the {} received seq {:?} ({})", name, got.iter().map(|x| x.0).collect::<Vec<_>>(), how),
+            ));
+        }
+    }
+    Ok((deliveries, findings))
+}
